@@ -148,7 +148,8 @@ class Module:
         self.constants = {}  # module-level NAME = expr
         for n in ast.walk(self.tree):
             for ch in ast.iter_child_nodes(n):
-                ch._parent = n
+                if not isinstance(ch, (ast.expr_context, ast.operator, ast.cmpop, ast.unaryop, ast.boolop)):
+                    ch._parent = n  # (context / operator nodes are singletons shared by every tree the parser builds)
         self.tree._parent = None
         self._index()
 
@@ -556,9 +557,9 @@ def canon_text(func, node):
     abstracted to $1, $2 ... in order of first appearance: stable under renaming of locals."""
     params = set(func.params) | ({func.vararg} if func.vararg else set()) | ({func.kwarg} if func.kwarg else set())
     stored = {n.id for n in ast.walk(func.node) if isinstance(n, ast.Name) and isinstance(n.ctx, (ast.Store, ast.Del))} - params
-    import copy
+    from .astclone import clone as _clone
 
-    t = copy.deepcopy(node)
+    t = _clone(node)
     order = {}
     names = sorted((n for n in ast.walk(t) if isinstance(n, ast.Name) and n.id in stored), key=lambda n: (getattr(n, "lineno", 0), getattr(n, "col_offset", 0)))
     for n in names:
